@@ -95,6 +95,11 @@ pub fn cells(upload: bool, thorough: bool) -> Vec<Value> {
                 let mut lens = vec![0, 1, blk - 1, blk, blk + 1, ws * blk - 1, ws * blk, ws * blk + 1, (ws + 1) * blk, 3 * ws * blk + 1];
                 lens.sort();
                 lens.dedup();
+                // a window of large blocks must fit the SERVER's default socket receive buffer (~200 KB) on uploads and
+                // ours on downloads, otherwise the kernel drops datagrams and the run depends on 5 s retransmission timers
+                if blk * ws > 140_000 {
+                    continue;
+                }
                 if blk == 65464 {
                     lens.retain(|l| *l <= 4 * 65464 + 1);
                 }
